@@ -1,9 +1,9 @@
 CONSTANTS
   Family = "logic"
-  MaxDepth = 2
-  SampleSize = 600
+  MaxDepth = 3
+  SampleSize = 1200
   NegUnionFlipsEach = FALSE
-  NegNestedUnionFlips = FALSE
+  NegNestedUnionFlips = TRUE
   FalsyObjs = {}
   OperandTruthFilter = FALSE
 SPECIFICATION Spec
